@@ -93,35 +93,8 @@ def run(ctx):
     R2 = "C05.R2"
     run.rule(R2, "only this transaction's outputs of this account are handed to the rollback", floor=3)
     if fn:
-        ro = cfg.find_calls(fn, UPD + "retrieve_outputs")
-        held = False
-        detail = ""
-        if len(ro) == 1:
-            b, t = ro[0]
-            o_txid = vf.origins(fn, t["a"][3])
-            o_acct = vf.origins(fn, t["a"][4])
-            held_id = vf.has_field(o_txid, c.LW + "types::TxLogEntry", "id") and ("agg", "core::option::Option", "Some") in o_txid
-            held_acct = ("arg", 3) in o_acct and ("agg", "core::option::Option", "Some") in o_acct
-            run.instance(R2, {"fn": "tx::cancel_tx", "obligation": "retrieve_outputs(tx_id = Some(tx.id) of the retrieved entry)"}, held=held_id)
-            run.instance(R2, {"fn": "tx::cancel_tx", "obligation": "retrieve_outputs(parent_key_id = Some(the account parameter))"}, held=held_acct)
-            if not held_id:
-                run.finding(Finding(R2, fid, "retrieve_outputs tx_id argument is not Some(tx.id)", site=c.site_of(fn, b), detail=str(sorted(map(str, o_txid)))[:300]))
-            if not held_acct:
-                run.finding(Finding(R2, fid, "retrieve_outputs account argument is not the parent_key_id parameter", site=c.site_of(fn, b)))
-            # outputs passed derive from that call
-            for cb, ct in cfg.find_calls(fn, UPD + "cancel_tx_and_outputs"):
-                oo = vf.origins(fn, ct["a"][3])
-                h = vf.has_call(oo, UPD + "retrieve_outputs") and not vf.has_call(oo, c.WB + "iter")
-                run.instance(R2, {"fn": "tx::cancel_tx", "obligation": "outputs handed to cancel_tx_and_outputs derive from that retrieve_outputs call"}, held=h)
-                if not h:
-                    run.finding(Finding(R2, fid, "outputs handed to cancel_tx_and_outputs do not derive from retrieve_outputs(Some(tx.id))", site=c.site_of(fn, cb)))
-                ot = vf.origins(fn, ct["a"][2])
-                h = vf.has_call(ot, UPD + "retrieve_txs")
-                run.instance(R2, {"fn": "tx::cancel_tx", "obligation": "the log entry handed on is the one retrieved"}, held=h)
-                if not h:
-                    run.finding(Finding(R2, fid, "log entry handed to cancel_tx_and_outputs is not the retrieved one", site=c.site_of(fn, cb)))
-        else:
-            run.error("C05.R2: expected exactly one retrieve_outputs call in cancel_tx, found %d" % len(ro))
+        from .shared import rollback_scope
+        rollback_scope(ctx, R2, fn, fid)
 
     R3 = "C05.R3"
     run.rule(R3, "rollback table per output status and log-entry type (path enumeration)", floor=8)
